@@ -48,6 +48,9 @@ fn split_out<C: Ciphersuite>(
 }
 
 pub fn exec<C: RandomizedCiphersuite>(op: &str, a: &A) -> Option<String> {
+    if matches!(op, "ser" | "de" | "json_ser" | "json_de" | "prim") {
+        return crate::codec_ops::exec_codec::<C>(op, a);
+    }
     let comms = |k: &str| a.get(k).and_then(p_comms::<C>);
     let tape = || a.get("tape").and_then(unhx).map(TapeRng::new);
     Some(match op {
@@ -459,12 +462,16 @@ pub fn exec_line(line: &str) -> String {
     let r = std::panic::catch_unwind(std::panic::AssertUnwindSafe(|| match suite.as_str() {
         "toy31" => exec::<crate::toy::Toy31>(&op, &a),
         "toy16" => exec::<crate::toy::Toy16>(&op, &a),
-        "ed25519" => exec::<frost_ed25519::Ed25519Sha512>(&op, &a),
-        "ed448" => exec::<frost_ed448::Ed448Shake256>(&op, &a),
-        "p256" => exec::<frost_p256::P256Sha256>(&op, &a),
-        "ristretto255" => exec::<frost_ristretto255::Ristretto255Sha512>(&op, &a),
-        "secp256k1" => exec::<frost_secp256k1::Secp256K1Sha256>(&op, &a),
-        "secp256k1-tr" => exec::<frost_secp256k1_tr::Secp256K1Sha256TR>(&op, &a),
+        "ed25519" => crate::wrapped::exec_ed25519(&op, &a).or_else(|| exec::<frost_ed25519::Ed25519Sha512>(&op, &a)),
+        "ed448" => crate::wrapped::exec_ed448(&op, &a).or_else(|| exec::<frost_ed448::Ed448Shake256>(&op, &a)),
+        "p256" => crate::wrapped::exec_p256(&op, &a).or_else(|| exec::<frost_p256::P256Sha256>(&op, &a)),
+        "ristretto255" => crate::wrapped::exec_ristretto255(&op, &a)
+            .or_else(|| exec::<frost_ristretto255::Ristretto255Sha512>(&op, &a)),
+        "secp256k1" => {
+            crate::wrapped::exec_secp256k1(&op, &a).or_else(|| exec::<frost_secp256k1::Secp256K1Sha256>(&op, &a))
+        }
+        "secp256k1-tr" => crate::wrapped::exec_secp256k1_tr(&op, &a)
+            .or_else(|| exec::<frost_secp256k1_tr::Secp256K1Sha256TR>(&op, &a)),
         _ => Some("bad-suite".into()),
     }));
     match r {
